@@ -48,6 +48,9 @@ pub struct Case {
     /// the chain uses plain case-sensitive strings as addresses (accounts that differ in letter case only)
     #[serde(default)]
     pub plain: bool,
+    /// sparse observation (see World::sparse)
+    #[serde(default)]
+    pub sparse: bool,
 }
 
 // --- relay contract -------------------------------------------------------------------------
@@ -74,6 +77,9 @@ pub struct World {
     pub model: Ledger,
     /// (kind, coin class, accepted) per executed operation
     pub log: Vec<(String, String, bool)>,
+    /// sparse observation: after an operation only the accounts it names are queried (and only every seventh
+    /// operation everything), so that what a query answers right after a write is not preceded by a sweep of reads
+    pub sparse: bool,
 }
 
 pub const DENOMS: [&str; 3] = ["ua", "ub", "uc"];
@@ -86,7 +92,9 @@ impl World {
     }
 
     pub fn for_case(case: &Case) -> World {
-        World::new_with(case.plain)
+        let mut w = World::new_with(case.plain);
+        w.sparse = case.sparse;
+        w
     }
 
     /// `plain`: addresses are plain case-sensitive strings; the accounts are Alice, alice, ALICE, alic, "alice " and
@@ -103,7 +111,7 @@ impl World {
             .instantiate_contract(code, Addr::unchecked(users[0].clone()), &Empty {}, &[], "relay", None)
             .expect("instantiate relay")
             .to_string();
-        World { app, users, relay, model: Ledger::default(), log: vec![] }
+        World { app, users, relay, model: Ledger::default(), log: vec![], sparse: false }
     }
 }
 
@@ -239,11 +247,26 @@ pub fn apply(w: &mut World, op: &BOp, rep: &mut Report) -> Option<(String, Strin
             return Some((format!("bank-failed-{}-changed-state", kind), format!("{:?} failed but raw storage changed: {:?}", op, rawstate::diff(&before, &after))));
         }
     }
+    if w.sparse && w.log.len() % 7 != 0 {
+        let focus: Vec<String> = match op {
+            BOp::Send { from, to, .. } => vec![to.clone(), from.clone()],
+            BOp::Burn { from, .. } => vec![from.clone()],
+            BOp::Mint { to, .. } => vec![to.clone()],
+            BOp::Relay { user, .. } => vec![w.relay.clone(), user.clone()],
+        };
+        rep.bump("c09/sparse_observations");
+        return observe_some(w, rep, Some(&focus));
+    }
     observe(w, rep)
 }
 
 /// Compares the raw ledger and the three query kinds with the model.
 pub fn observe(w: &World, rep: &mut Report) -> Option<(String, String)> {
+    observe_some(w, rep, None)
+}
+
+/// `focus`: query only these accounts (the raw ledger is always compared as a whole: reading it runs no bank code).
+pub fn observe_some(w: &World, rep: &mut Report, focus: Option<&[String]>) -> Option<(String, String)> {
     let raw = rawstate::dump(w.app.storage());
     let ledger = match rawstate::bank_ledger(&raw) {
         Ok(l) => l,
@@ -272,6 +295,9 @@ pub fn observe(w: &World, rep: &mut Report) -> Option<(String, String)> {
         if raw_sum != w.model.supply(d) {
             return Some(("bank-conservation-broken".into(), format!("denom {}: sum of raw balances {}, model supply {}", d, raw_sum, w.model.supply(d))));
         }
+        if focus.is_some() {
+            continue;
+        }
         let s: Result<SupplyResponse, _> = w.app.wrap().query(&QueryRequest::Bank(BankQuery::Supply { denom: d.clone() }));
         match s {
             Ok(s) => {
@@ -284,6 +310,10 @@ pub fn observe(w: &World, rep: &mut Report) -> Option<(String, String)> {
         }
     }
     let querier = w.app.wrap();
+    let addrs: Vec<String> = match focus {
+        Some(f) => f.to_vec(),
+        None => addrs,
+    };
     for a in &addrs {
         if w.app.api().addr_validate(a).map(|x| x.as_str() == a).unwrap_or(false) {
             #[allow(deprecated)]
@@ -430,6 +460,7 @@ pub fn run_random(rng: &mut Rng, len: usize, rep: &mut Report) -> (Case, Option<
         rep.bump("c09/histories_with_plain_case_sensitive_addresses");
     }
     let mut w = World::new_with(plain);
+    w.sparse = rng.chance(1, 2);
     let mut ops = vec![];
     // start with some money around
     for u in w.users.clone().iter().take(4) {
@@ -458,14 +489,14 @@ pub fn run_random(rng: &mut Rng, len: usize, rep: &mut Report) -> (Case, Option<
     }
     for op in ops.clone() {
         if let Some(f) = apply(&mut w, &op, rep) {
-            return (Case { ops, plain }, Some(f));
+            return (Case { ops, plain, sparse: w.sparse }, Some(f));
         }
     }
     for _ in 0..len {
         let op = gen_op(rng, &w);
         ops.push(op.clone());
         if let Some(f) = apply(&mut w, &op, rep) {
-            return (Case { ops, plain }, Some(f));
+            return (Case { ops, plain, sparse: w.sparse }, Some(f));
         }
     }
     let accepted = w.log.iter().filter(|l| l.2).count();
@@ -473,7 +504,7 @@ pub fn run_random(rng: &mut Rng, len: usize, rep: &mut Report) -> (Case, Option<
         // non-trivial: both accepted and rejected operations occurred
         rep.fingerprints.insert(fp_str(&format!("{:?}", w.log)));
     }
-    (Case { ops, plain }, None)
+    (Case { ops, plain, sparse: w.sparse }, None)
 }
 
 pub fn run_case(case: &Case, rep: &mut Report) -> Option<(String, String)> {
@@ -517,6 +548,7 @@ fn templates_for(plain: bool) -> Vec<Case> {
                 BOp::Send { from: b.clone(), to: "staking_module".into(), coins: c(&[("uc", 1)]), via: Via::Execute },
             ],
             plain,
+            sparse: false,
         },
         Case {
             ops: vec![
@@ -529,6 +561,7 @@ fn templates_for(plain: bool) -> Vec<Case> {
                 BOp::Relay { user: a.clone(), funds: c(&[("ua", 70)]), msgs: vec![RelayMsg::Send { to: r.clone(), coins: c(&[("ua", 70)]) }, RelayMsg::Send { to: a.clone(), coins: c(&[("ua", 70)]) }] },
             ],
             plain,
+            sparse: false,
         },
     ]
 }
